@@ -537,6 +537,29 @@ fn api_compat_mode(args: &[String], holes: bool, roundtrip: bool) {
                 if t2 != relabelled { println!("FAIL set_version altered the content {}", ctx); nfail += 1; if !survey { return; } else { continue 'docs; } }
             } else if f2.version() != v0 || f2.serialize().unwrap_or_default() != text { println!("FAIL a refused set_version changed the file {}", ctx); nfail += 1; if !survey { return; } else { continue 'docs; } }
         }
+        // two-file models: the result for this file must not depend on another file of the model that holds other packages
+        if built % 16 == 1 {
+            let other = text.split("<AR-PACKAGES>").next().unwrap_or("").to_string() + "<AR-PACKAGES><AR-PACKAGE><SHORT-NAME>a0</SHORT-NAME></AR-PACKAGE><AR-PACKAGE><SHORT-NAME>zz9</SHORT-NAME></AR-PACKAGE></AR-PACKAGES></AUTOSAR>";
+            for other_first in [true, false] {
+                let m4 = AutosarModel::new();
+                let loaded = if other_first {
+                    m4.load_buffer(other.as_bytes(), "o.arxml", true).and_then(|_| m4.load_buffer(text.as_bytes(), "a.arxml", true))
+                } else {
+                    m4.load_buffer(text.as_bytes(), "a.arxml", true).and_then(|(fa, w)| m4.load_buffer(other.as_bytes(), "o.arxml", true).map(|_| (fa, w)))
+                };
+                let Ok((fa, _)) = loaded else { continue };
+                for v in &all_versions {
+                    let (e1, m1) = file.check_version_compatibility(*v);
+                    let (e2, m2) = fa.check_version_compatibility(*v);
+                    compared += 1;
+                    if e1.len() != e2.len() || v.compatible(m1) != v.compatible(m2) {
+                        println!("FAIL in a model with a second file, check_version_compatibility of this file lists {} incompatibilities (mask {:#x}); alone it lists {} (mask {:#x}) [{}; second file loaded {}, target {}] :: document {}",
+                                 e2.len(), m2, e1.len(), m1, c.what, if other_first { "first" } else { "second" }, v.filename(), hex(text.as_bytes()));
+                        nfail += 1; if !survey { return; } else { continue 'docs; }
+                    }
+                }
+            }
+        }
         // the same content labelled with a version in which it is NOT valid, loaded leniently (the loader keeps the content and
         // warns): the compatibility check must still report it for every target in which it is not valid
         let invalid: Vec<AutosarVersion> = all_versions.iter().copied().filter(|v| c.avail & (*v as u32) == 0).collect();
